@@ -304,7 +304,7 @@ impl Hasher for H {
 // ---------------------------------------------------------------------------------------------
 // Element types
 // ---------------------------------------------------------------------------------------------
-pub trait KeyT: Hash + Eq + Clone + Send + Sync + 'static {
+pub trait KeyT: Hash + Eq + Clone + Send + Sync + std::fmt::Debug + serde::Serialize + serde::de::DeserializeOwned + 'static {
     const NAME: &'static str;
     fn new(k: u32) -> Self;
     /// an untracked key used only to look things up
@@ -312,7 +312,7 @@ pub trait KeyT: Hash + Eq + Clone + Send + Sync + 'static {
     fn k(&self) -> u32;
     fn id(&self) -> u32;
 }
-pub trait ValT: Clone + Send + Sync + PartialEq + std::fmt::Debug + 'static {
+pub trait ValT: Clone + Send + Sync + PartialEq + std::fmt::Debug + serde::Serialize + serde::de::DeserializeOwned + 'static {
     fn new(v: u32) -> Self;
     fn v(&self) -> u32;
     fn set(&mut self, v: u32);
@@ -320,7 +320,7 @@ pub trait ValT: Clone + Send + Sync + PartialEq + std::fmt::Debug + 'static {
 }
 
 // ---- plain ----
-#[derive(Clone, Copy, Debug)]
+#[derive(Clone, Copy)]
 pub struct PK(pub u32);
 impl Hash for PK {
     #[inline]
@@ -352,7 +352,7 @@ impl KeyT for PK {
         0
     }
 }
-#[derive(Clone, Copy, Debug, PartialEq)]
+#[derive(Clone, Copy, PartialEq)]
 pub struct PV(pub u32);
 impl ValT for PV {
     fn new(v: u32) -> Self {
@@ -371,7 +371,6 @@ impl ValT for PV {
 
 // ---- heap-owning, ledger tracked, canary checked ----
 const MAGIC: u64 = 0xC0FFEE_5EED_0000;
-#[derive(Debug)]
 pub struct HK {
     k: u32,
     id: u32,
@@ -443,7 +442,6 @@ impl KeyT for HK {
         self.id
     }
 }
-#[derive(Debug)]
 pub struct HV {
     v: u32,
     id: u32,
@@ -504,7 +502,7 @@ impl ValT for HV {
 }
 
 // ---- zero-sized ----
-#[derive(Clone, Copy, Debug)]
+#[derive(Clone, Copy)]
 pub struct ZK;
 impl Hash for ZK {
     #[inline]
@@ -536,7 +534,7 @@ impl KeyT for ZK {
         0
     }
 }
-#[derive(Clone, Copy, Debug, PartialEq)]
+#[derive(Clone, Copy, PartialEq)]
 pub struct ZV;
 impl ValT for ZV {
     fn new(_v: u32) -> Self {
@@ -550,3 +548,31 @@ impl ValT for ZV {
         0
     }
 }
+
+// ---- Debug (prints the number only) and serde (as u32) for all element types ----
+macro_rules! dbg_serde {
+    ($t:ty, $get:expr, $mk:expr) => {
+        impl std::fmt::Debug for $t {
+            fn fmt(&self, f: &mut std::fmt::Formatter<'_>) -> std::fmt::Result {
+                write!(f, "{}", $get(self))
+            }
+        }
+        impl serde::Serialize for $t {
+            fn serialize<S: serde::Serializer>(&self, s: S) -> Result<S::Ok, S::Error> {
+                s.serialize_u32($get(self))
+            }
+        }
+        impl<'de> serde::Deserialize<'de> for $t {
+            fn deserialize<D: serde::Deserializer<'de>>(d: D) -> Result<Self, D::Error> {
+                let x = u32::deserialize(d)?;
+                Ok($mk(x))
+            }
+        }
+    };
+}
+dbg_serde!(PK, |x: &PK| x.0, PK);
+dbg_serde!(PV, |x: &PV| x.0, PV);
+dbg_serde!(HK, |x: &HK| x.k, <HK as KeyT>::new);
+dbg_serde!(HV, |x: &HV| x.v, <HV as ValT>::new);
+dbg_serde!(ZK, |_x: &ZK| 0u32, |_| ZK);
+dbg_serde!(ZV, |_x: &ZV| 0u32, |_| ZV);
